@@ -98,7 +98,7 @@ class C05(Base):
             return Plan([(cfg, 1, "every")])
         others, calls = _cotenants(rng, nmax)
         if rng.random() < 0.7:
-            N = draw_N(rng, nmax, small=10)
+            N = draw_N(rng, nmax, small=max(10, nmax // 6))
             s = draw_units(rng, N, 1 if N > 1 else 0)
             if rng.random() < 0.5:
                 s = rng.randint(1, max(1, min(N, 8)))
@@ -120,7 +120,7 @@ class C05(Base):
                          "traj": rng.choice(("maximum", "revolve"))}}
             units = r + d
         else:
-            N = draw_N(rng, rfmax, small=10)
+            N = draw_N(rng, rfmax, small=max(10, rfmax // 6))
             s = rng.choice((1, 1, 2, 2, 3, 4, 5, 6, 8, N, N + 1))
             s = max(1, min(s, 14))
             cfg = {"cls": "Revolve", "N": N, "p": dict(draw_costs(rng), s=s)}
@@ -223,7 +223,7 @@ class C06(Base):
             return ListDriver([["sweep", "mixed_step_memoization",
                                 *self.SWEEP[tier]]])
         others, calls = _cotenants(rng, nmax)
-        N = draw_N(rng, nmax, small=10)
+        N = draw_N(rng, nmax, small=max(10, nmax // 6))
         s = draw_units(rng, N, 1 if N > 1 else 0)
         if rng.random() < 0.5:
             s = rng.randint(1, max(1, min(N, 8)))
@@ -333,7 +333,7 @@ class C07(Base):
 
     def plan(self, rng, tier, idx):
         nmax, _ = self.SIZES[tier]
-        N = draw_N(rng, nmax, small=10)
+        N = draw_N(rng, nmax, small=max(10, nmax // 6))
         s = rng.choice((1, 1, 1, 2, 2, 3, 4, 5, 6))
         costs = draw_costs(rng, default_p=0.05)
         dmax = rng.choice((1, 2, 3, 4, 6))
@@ -562,7 +562,7 @@ class C14(Base):
 
     def plan(self, rng, tier, idx):
         nmax, _ = self.SIZES[tier]
-        N = draw_N(rng, nmax, small=10)
+        N = draw_N(rng, nmax, small=max(10, nmax // 6))
         s = rng.randint(1, self.SMAX[tier])
         if rng.random() < 0.3:
             s = max(1, rng.choice((N - 2, N - 1, N, N + 2)))
@@ -659,7 +659,7 @@ class C16(Base):
 
     def plan(self, rng, tier, idx):
         nmax, _ = self.SIZES[tier]
-        N = draw_N(rng, nmax, small=10)
+        N = draw_N(rng, nmax, small=max(10, nmax // 6))
         s = draw_units(rng, N, 1 if N > 1 else 0)
         if rng.random() < 0.5:
             s = rng.randint(1, max(1, min(N, 8)))
